@@ -156,6 +156,16 @@ def strip_forall_n(tm, n):
         n -= 1
     return args, tm
 
+def check_bound_names(rule_name, tm, *var_lists):
+    """strip_forall / strip_exists / strip_quant open a binder with the name recorded in it.
+    Comparing the opened bodies is only meaningful if no such name is bound twice in a stripped
+    prefix and none of them is the name of a free variable of the formula tm."""
+    free = set(v.name for v in tm.get_vars())
+    for vs in var_lists:
+        names = [v.name for v in vs]
+        if len(set(names)) != len(names) or any(nm in free for nm in names):
+            raise VeriTException(rule_name, "the name of a bound variable is used for another variable")
+
 def try_resolve(prop1, prop2):
     """Try to resolve two propositions."""
     for i in range(len(prop1)):
@@ -3612,6 +3622,7 @@ class ConnectiveDefMacro(Macro):
         elif lhs.is_exists() and rhs.is_not() and rhs.arg.is_forall():
             l_var, l_body = lhs.strip_exists()
             r_var, r_body = rhs.arg.strip_forall()
+            check_bound_names("connective_def", goal, l_var, r_var)
             if l_var == r_var and Not(l_body) == r_body:
                 return Thm(goal)
             else:
@@ -4536,6 +4547,7 @@ class QntCnfMacro(Macro):
         cnf_body = get_cnf(body)
 
         ys, concl_body = concl.strip_forall()
+        check_bound_names("qnt_cnf", arg, xs, ys)
 
         cnf_body_conjs = cnf_body.strip_conj()
         if any(concl_body == t for t in cnf_body_conjs):
